@@ -229,21 +229,26 @@ func (monC04) Step(h *History, st *Step) []Violation {
 				continue // refund and proceeds both arrive from the paying escrow
 			}
 			refund := zeroIfNil(f.P[b])
-			pay := bsub(r.ReqSum[b], refund)
+			// what actually left the bidder's account for this auction (placements + modifications)
+			reserved := flowOf(h.InP, a.ID, b)
+			pay := bsub(reserved, refund)
 			if pay.Sign() < 0 {
-				vs = append(vs, viol("C04/refund-above-reservation", "auction %d: %s reserved %s%s but was refunded %s", a.ID, short(b), r.ReqSum[b], a.PayDenom, refund))
+				vs = append(vs, viol("C04/refund-above-reservation", "auction %d: %s reserved %s%s but was refunded %s", a.ID, short(b), reserved, a.PayDenom, refund))
 				continue
 			}
 			alloc := r.Alloc[b]
 			if alloc.Sign() == 0 {
 				if pay.Sign() != 0 {
-					vs = append(vs, viol("C04/loser-not-fully-refunded", "auction %d: %s won nothing, reserved %s%s, refunded only %s", a.ID, short(b), r.ReqSum[b], a.PayDenom, refund))
+					vs = append(vs, viol("C04/loser-not-fully-refunded", "auction %d: %s won nothing, reserved %s%s, refunded only %s", a.ID, short(b), reserved, a.PayDenom, refund))
 				}
 				continue
 			}
 			if pay.Cmp(r.PayLo[b]) < 0 || pay.Cmp(r.PayHi[b]) > 0 {
 				vs = append(vs, viol("C04/payment-out-of-bounds", "auction %d cleared at %s: %s received %s coins and paid %s%s (reserved %s, refunded %s); price*quantity bounds are [%s,%s] (exact=%v, matched bids <= %d)",
-					a.ID, mstr(r.PStarM), short(b), alloc, pay, a.PayDenom, r.ReqSum[b], refund, r.PayLo[b], r.PayHi[b], r.Exact[b], r.Eligible[b]))
+					a.ID, mstr(r.PStarM), short(b), alloc, pay, a.PayDenom, reserved, refund, r.PayLo[b], r.PayHi[b], r.Exact[b], r.Eligible[b]))
+			}
+			if pay.Cmp(reserved) > 0 {
+				vs = append(vs, viol("C04/paid-more-than-reserved", "auction %d: %s paid %s but reserved %s", a.ID, short(b), pay, reserved))
 			}
 			if pay.Cmp(r.PayLo[b]) == 0 && pay.Cmp(r.ReqSum[b]) == 0 {
 				h.Label("c04:payment==reservation")
@@ -343,6 +348,18 @@ func (monC05) Step(h *History, st *Step) []Violation {
 				}
 			} else {
 				asked = zeroIfNil(rec.Alloc[to])
+				// fixed price: never more than the allowance as of the moment its bids were accepted
+				var maxCap *big.Int
+				for _, k := range h.BidKeys {
+					if info := h.Bids[k]; info.Auction == a.ID && info.Owner == to && info.CapAtAccept != nil {
+						if maxCap == nil || info.CapAtAccept.Cmp(maxCap) > 0 {
+							maxCap = info.CapAtAccept
+						}
+					}
+				}
+				if maxCap != nil && got.Cmp(maxCap) > 0 {
+					vs = append(vs, viol("C05/fixed-over-cap", "fixed price auction %d: %s received %s%s, its allowance never exceeded %s when its bids were accepted", a.ID, short(to), got, a.SellDenom, maxCap))
+				}
 			}
 			if got.Cmp(asked) > 0 {
 				vs = append(vs, viol("C05/over-request", "auction %d: %s received %s%s but asked for %s", a.ID, short(to), got, a.SellDenom, asked))
